@@ -333,6 +333,13 @@ def oracle(case, resps):
                 given = {k.lower(): v for k, v in body[1]} if body and body[0] == "obj" else {}
                 if "enabled" not in given and pl[1]["enabled"] is not True:
                     return (i, "created proxy is not enabled by default")
+            if q["method"] == "POST" and segs == ["populate"] and st == 201 and pl[0] == "populate":
+                # what a successful populate answers is what is registered: every proxy it returns is listed, exactly as returned
+                last = {pp["name"]: pp for pp in pl[1]}          # a body may name a proxy twice: the later entry replaces the earlier
+                for pp in last.values():
+                    if now.get(pp["name"]) != pp:
+                        return (i, "populate answered 201 with proxy %r as %s, but the proxy listed afterwards is %s (writes not reflected)"
+                                % (pp["name"], json.dumps(pp, default=str)[:140], json.dumps(now.get(pp["name"]), default=str)[:140]))
             if q["method"] == "POST" and segs == ["proxies"] and q["json"] and q["json"][0] == "obj":
                 given = {k.lower(): v for k, v in q["json"][1]}
                 nm = given.get("name")
